@@ -161,7 +161,7 @@ def run(phase, cases, ctx):
                 if not ok:
                     violations.append({'kind': 'wrong-product', 'case': case, 'detail': f'T from mv = {P.mat_summary(mats[0].T, 49)} but reference {P.mat_summary(refs[0], 49)}'})
                     continue
-                op1 = T(jnp.asarray(bands, D), jax.ShapeDtypeStruct((n,), D), **kw)
+                op1 = T(jnp.asarray(bands, D), jax.ShapeDtypeStruct(tuple(xb) + (n,), D), **kw)
             else:
                 op1 = T(jnp.asarray(bands, D), jax.ShapeDtypeStruct(tuple(xb) + (n,), D), **kw)
                 cols = []
